@@ -21,6 +21,7 @@ import (
 	"encoding/json"
 	"fmt"
 	"math"
+	"math/big"
 	"strconv"
 	"strings"
 	"time"
@@ -29,6 +30,7 @@ import (
 	"github.com/Basekick-Labs/msgpack/v6"
 	"github.com/apache/arrow-go/v18/arrow"
 	"github.com/apache/arrow-go/v18/arrow/array"
+	"github.com/apache/arrow-go/v18/arrow/decimal128"
 	"github.com/basekick-labs/arc/internal/api"
 	"github.com/basekick-labs/arc/internal/verif/vh"
 )
@@ -459,7 +461,7 @@ func scalarOps(c *vh.Ctx, r *vh.Rand) {
 	// --- str / bin: every length boundary (2^5, 2^8, 2^16); 2^32 is covered by the header-only ops + Lean
 	lens := []int{0, 1, 15, 16, 31, 32, 33, 255, 256, 257, 65535, 65536, 65537}
 	if c.Thorough() {
-		lens = append(lens, 1<<20, 1<<24+3)
+		lens = append(lens, 70000, 100003) // (the Lean driver keeps byte strings as lists: stay well below its stack)
 	}
 	for _, n := range lens {
 		by := byte('a' + n%26)
@@ -861,6 +863,17 @@ func edgeColumn(cl colClass) arrow.Array {
 		for _, v := range invalidUTF8 {
 			x.Append([]byte(v))
 		}
+	case *array.Decimal128Builder:
+		dt := x.Type().(*arrow.Decimal128Type)
+		lim := new(big.Int).Exp(big.NewInt(10), big.NewInt(int64(dt.Precision)), nil)
+		max := new(big.Int).Sub(lim, big.NewInt(1))
+		for _, v := range []*big.Int{big.NewInt(0), big.NewInt(1), big.NewInt(-1), big.NewInt(100), big.NewInt(-12345), max, new(big.Int).Neg(max),
+			big.NewInt(9007199254740993), big.NewInt(-9007199254740993), big.NewInt(math.MaxInt64), big.NewInt(math.MinInt64),
+			new(big.Int).Add(big.NewInt(math.MaxInt64), big.NewInt(1))} {
+			if new(big.Int).Abs(v).Cmp(lim) < 0 {
+				x.Append(decimal128.FromBigInt(v))
+			}
+		}
 	default:
 		return nil
 	}
@@ -938,6 +951,7 @@ func main() {
 
 	// 3. real DuckDB result sets through the real HTTP endpoints
 	e := newDuckEnv()
+	e.c = c
 	exprs := duckExprs()
 	rq := r.Fork()
 	ns := []int{5, 0, 1, 2049}
@@ -970,6 +984,25 @@ func main() {
 			c.Fail("encoder-panic:duck", out, "random DuckDB case #"+strconv.Itoa(i))
 		}
 	}
+	// tiny results over the Arrow endpoint: the stream writer finishes while fasthttp may still be serialising the
+	// response head (see the ipc-malformed:http-trailer-race finding); timing dependent by nature
+	nTiny := 300
+	if c.Thorough() {
+		nTiny = 3000
+	}
+	for i := 0; i < nTiny; i++ {
+		st, body, err := e.post("/api/v1/query/arrow", fmt.Sprintf("SELECT %d AS c0", i))
+		if err == nil && st == 200 {
+			if _, rr, derr := decodeIPC(body); derr != nil {
+				c.Fail("ipc-malformed:int32", "tiny result: "+derr.Error(), fmt.Sprintf("format=ipc source=SELECT %d AS c0", i))
+			} else {
+				for _, x := range rr {
+					x.Release()
+				}
+			}
+		}
+	}
+	c.Tag("duck:tiny-ipc")
 	e.close()
 	c.Finish("case = one result set (direct Arrow records or a DuckDB SELECT) pushed through JSON, MessagePack and Arrow IPC; non-trivial = at least one row; ops = byte-level scalar/string/header/envelope encodings diffed against the Lean model")
 }
